@@ -288,6 +288,7 @@ class Run:
         self.solver = z3.Solver()
         self.solver.set("timeout", timeout_ms)
         self.heap, self.region, self.frozen = {}, {}, {}
+        self.qfacts = set()
         self.nref = itertools.count(1)
         self.nsym = itertools.count(1)
         self.ghost = {}
@@ -339,12 +340,19 @@ class Run:
         self.pc.append(f)
         self.solver.add(f)
 
+    def assume_q(self, f):
+        """Assume a quantified fact: it joins the path condition of every later obligation but is kept out of the
+        incremental feasibility solver (branch feasibility is then over-approximated, which is sound)."""
+        self.pc.append(f)
+        self.qfacts.add(f.get_id())
+
     def reset_pc(self, keep):
         self.pc = list(keep)
         self.solver = z3.Solver()
         self.solver.set("timeout", 5000)
         for f in self.pc:
-            self.solver.add(f)
+            if f.get_id() not in self.qfacts:
+                self.solver.add(f)
 
     def oblige(self, name, goal, props=(), backend="z3", info=None):
         if isinstance(goal, Sym):
